@@ -20,20 +20,20 @@ type TV struct {
 }
 
 type SpecEnv struct {
-	x       *FnExec
-	fr      *Frame
-	vars    map[string]TV
-	cur     *State
-	old     *State
-	c       *Contract
-	pkgPath string
-	phis    map[*ssa.Phi]Value
-	loop    *loopInfo
-	inOld   bool
-	depth   int
-	payload map[string]types.Type
+	x          *FnExec
+	fr         *Frame
+	vars       map[string]TV
+	cur        *State
+	old        *State
+	c          *Contract
+	pkgPath    string
+	phis       map[*ssa.Phi]Value
+	loop       *loopInfo
+	inOld      bool
+	depth      int
+	payload    map[string]types.Type
 	quantBound map[string]bool
-	guard *Term
+	guard      *Term
 }
 
 var untypedInt = types.Typ[types.UntypedInt]
